@@ -4,6 +4,8 @@ in-memory overlay) and resolve classes, MROs, aliases and callees.
 Nothing from the analysed package is imported or executed.
 """
 import ast
+import copy
+import keyword
 import glob
 import hashlib
 import os
@@ -275,6 +277,197 @@ def inline_literal_constants(tree):
     return {k: v.value for k, v in consts.items()}
 
 
+def _simple_elem(e):
+    """An element of a literal table that can be re-evaluated anywhere: constants, names, dotted names, tuples of those."""
+    if isinstance(e, ast.Constant) or isinstance(e, ast.Name):
+        return True
+    if isinstance(e, ast.Attribute):
+        return _simple_elem(e.value)
+    if isinstance(e, ast.UnaryOp) and isinstance(e.op, ast.USub) and isinstance(e.operand, ast.Constant):
+        return True
+    if isinstance(e, (ast.Tuple, ast.List)):
+        return all(_simple_elem(x) for x in e.elts)
+    return False
+
+
+def unroll_table_loops(tree):
+    """Normalisation: a `for` over a *literal table* -- a tuple/list display of simple elements written in place, or a module-
+    / class-level name bound exactly once to such a display -- is replaced by its unrolling, with the loop variables substituted
+    in each copy of the body; then `setattr(x, '<ident>', v)` statements become `x.<ident> = v` and `getattr(x, '<ident>')`
+    becomes `x.<ident>`.  A table-driven rewrite of a run of sibling statements (or of an if/elif chain) is thereby analysed
+    as the run of statements it stands for.  Loops with break/continue/else, large tables or bodies that rebind the loop
+    variables or the names the table reads are left alone.  Returns the number of loops unrolled."""
+    stores = {}
+    attr_stores = set()
+    for n in ast.walk(tree):
+        if isinstance(n, ast.Name) and isinstance(n.ctx, (ast.Store, ast.Del)):
+            stores[n.id] = stores.get(n.id, 0) + 1
+        elif isinstance(n, (ast.Global, ast.Nonlocal)):
+            for nm in n.names:
+                stores[nm] = stores.get(nm, 0) + 2
+        elif isinstance(n, ast.Attribute) and isinstance(n.ctx, (ast.Store, ast.Del)):
+            attr_stores.add(n.attr)
+        elif isinstance(n, (ast.FunctionDef, ast.AsyncFunctionDef, ast.ClassDef)):
+            stores[n.name] = stores.get(n.name, 0) + 2
+        elif isinstance(n, ast.Call) and isinstance(n.func, ast.Name) and n.func.id == 'setattr' and len(n.args) == 3 and \
+                isinstance(n.args[1], ast.Constant) and isinstance(n.args[1].value, str):
+            attr_stores.add(n.args[1].value)
+
+    def table_of(v):
+        if isinstance(v, (ast.Tuple, ast.List)) and 0 < len(v.elts) <= 12 and all(_simple_elem(x) for x in v.elts):
+            return v
+        return None
+    mod_tables = {}
+    for st in tree.body:
+        if isinstance(st, ast.Assign) and len(st.targets) == 1 and isinstance(st.targets[0], ast.Name) and \
+                stores.get(st.targets[0].id) == 1 and table_of(st.value) is not None:
+            mod_tables[st.targets[0].id] = st.value
+    count = [0]
+
+    def own_nodes(body):
+        """nodes of the statements, not descending into nested function / class definitions"""
+        stack = list(body)
+        while stack:
+            x = stack.pop()
+            yield x
+            if isinstance(x, (ast.FunctionDef, ast.AsyncFunctionDef, ast.ClassDef, ast.Lambda)) :
+                continue
+            stack.extend(ast.iter_child_nodes(x))
+
+    def loop_ctl(body):
+        """break / continue that belong to this loop"""
+        stack = list(body)
+        while stack:
+            x = stack.pop()
+            if isinstance(x, (ast.Break, ast.Continue)):
+                return True
+            if isinstance(x, (ast.For, ast.While, ast.AsyncFor, ast.FunctionDef, ast.AsyncFunctionDef, ast.ClassDef, ast.Lambda)):
+                if isinstance(x, (ast.For, ast.While, ast.AsyncFor)):
+                    stack.extend(x.orelse)
+                continue
+            stack.extend(ast.iter_child_nodes(x))
+        return False
+
+    class Subst(ast.NodeTransformer):
+        def __init__(self, env):
+            self.env = env
+
+        def visit_Name(self, n):
+            if isinstance(n.ctx, ast.Load) and n.id in self.env:
+                return ast.copy_location(copy.deepcopy(self.env[n.id]), n)
+            return n
+
+    class Unroll(ast.NodeTransformer):
+        def __init__(self):
+            self.cls_tables = [{}]
+            self.fn = []
+
+        def visit_ClassDef(self, n):
+            tabs = {}
+            cnt = {}
+            for st in n.body:
+                for x in own_nodes([st]):
+                    if isinstance(x, ast.Name) and isinstance(x.ctx, ast.Store):
+                        cnt[x.id] = cnt.get(x.id, 0) + 1
+            for st in n.body:
+                if isinstance(st, ast.Assign) and len(st.targets) == 1 and isinstance(st.targets[0], ast.Name) and \
+                        cnt.get(st.targets[0].id) == 1 and st.targets[0].id not in attr_stores and table_of(st.value) is not None:
+                    tabs[st.targets[0].id] = st.value
+            self.cls_tables.append(tabs)
+            self.generic_visit(n)
+            self.cls_tables.pop()
+            return n
+
+        def _fn(self, n):
+            self.fn.append(n)
+            self.generic_visit(n)
+            self.fn.pop()
+            return n
+        visit_FunctionDef = visit_AsyncFunctionDef = _fn
+
+        def table(self, it, local):
+            t = table_of(it)
+            if t is not None:
+                return t, False
+            if isinstance(it, ast.Name) and it.id in mod_tables and it.id not in local:
+                return mod_tables[it.id], True
+            if isinstance(it, ast.Attribute) and isinstance(it.value, ast.Name) and it.value.id in ('self', 'cls') and \
+                    it.attr in self.cls_tables[-1]:
+                return self.cls_tables[-1][it.attr], True
+            return None, False
+
+        def visit_For(self, n):
+            self.generic_visit(n)
+            if not self.fn or n.orelse or loop_ctl(n.body) or len(n.body) > 6:
+                return n
+            fn = self.fn[-1]
+            local = {a.arg for a in ast.walk(fn.args) if isinstance(a, ast.arg)}
+            local |= {x.id for x in own_nodes(fn.body) if isinstance(x, ast.Name) and isinstance(x.ctx, ast.Store)}
+            tab, remote = self.table(n.iter, local)
+            if tab is None:
+                return n
+            tg = n.target
+            if isinstance(tg, ast.Name):
+                names = [tg.id]
+            elif isinstance(tg, (ast.Tuple, ast.List)) and all(isinstance(x, ast.Name) for x in tg.elts):
+                names = [x.id for x in tg.elts]
+                if not all(isinstance(e, (ast.Tuple, ast.List)) and len(e.elts) == len(names) for e in tab.elts):
+                    return n
+            else:
+                return n
+            body_stores = {x.id for x in own_nodes(n.body) if isinstance(x, ast.Name) and isinstance(x.ctx, (ast.Store, ast.Del))}
+            if body_stores & set(names):
+                return n
+            read = {x.id for e in tab.elts for x in ast.walk(e) if isinstance(x, ast.Name)}
+            if read & body_stores or (remote and read & local):
+                return n
+            # nested definitions capture the loop variable late: leave those alone
+            if any(isinstance(x, (ast.FunctionDef, ast.AsyncFunctionDef, ast.Lambda, ast.ClassDef)) for st in n.body for x in ast.walk(st)):
+                return n
+            in_loop = {id(x) for x in ast.walk(n)}
+            used_outside = any(isinstance(x, ast.Name) and x.id in names and id(x) not in in_loop for x in own_nodes(fn.body))
+            out = []
+            for e in tab.elts:
+                vals = [e] if isinstance(tg, ast.Name) else list(e.elts)
+                env = dict(zip(names, vals))
+                if used_outside:
+                    for nm, v in env.items():
+                        out.append(ast.copy_location(ast.Assign(
+                            targets=[ast.copy_location(ast.Name(id=nm, ctx=ast.Store()), tg)], value=copy.deepcopy(v)), n))
+                for st in n.body:
+                    out.append(Subst(env).visit(copy.deepcopy(st)))
+            for st in out:
+                ast.fix_missing_locations(st)
+            count[0] += 1
+            return out
+
+    class Attrs(ast.NodeTransformer):
+        @staticmethod
+        def ident(a):
+            return isinstance(a, ast.Constant) and isinstance(a.value, str) and a.value.isidentifier() and \
+                not a.value.startswith('__') and not keyword.iskeyword(a.value)
+
+        def visit_Expr(self, n):
+            self.generic_visit(n)
+            c = n.value
+            if isinstance(c, ast.Call) and isinstance(c.func, ast.Name) and c.func.id == 'setattr' and len(c.args) == 3 and \
+                    not c.keywords and isinstance(c.args[0], ast.Name) and self.ident(c.args[1]) and 'setattr' not in stores:
+                tgt = ast.copy_location(ast.Attribute(value=c.args[0], attr=c.args[1].value, ctx=ast.Store()), c)
+                return ast.copy_location(ast.Assign(targets=[tgt], value=c.args[2]), n)
+            return n
+
+        def visit_Call(self, c):
+            self.generic_visit(c)
+            if isinstance(c.func, ast.Name) and c.func.id == 'getattr' and len(c.args) == 2 and not c.keywords and \
+                    isinstance(c.args[0], ast.Name) and self.ident(c.args[1]) and 'getattr' not in stores:
+                return ast.copy_location(ast.Attribute(value=c.args[0], attr=c.args[1].value, ctx=ast.Load()), c)
+            return c
+    Unroll().visit(tree)
+    Attrs().visit(tree)
+    ast.fix_missing_locations(tree)
+    return count[0]
+
+
 class Module:
     def __init__(self, name, path, relpath, source):
         self.name = name
@@ -283,6 +476,7 @@ class Module:
         self.source = source
         self.tree = ast.parse(source, filename=path)
         self.inlined_constants = inline_literal_constants(self.tree)
+        self.unrolled_table_loops = unroll_table_loops(self.tree)
         self.classes = {}
         self.functions = {}
         self.assigns = {}         # name -> list of value exprs, in order
